@@ -213,7 +213,11 @@ CHECKS = {
               'the tag\'s type and width from the regenerated table) comes back in the order given, normalised as documented (an unset flag is '
               'absent, a bool held for an integer parameter reads back 0/1; SAR parameters are withheld under UDHI), text in short_message or in '
               'message_payload - induction through the TLV loop of from_pdu. Serialising the same object again gives the same bytes '
-              '(C04 resend_same_bytes). NOT theorems: a UDH inside the text, codecs other than GSM 03.38 (explicit codec facts as hypotheses); '
+              '(C04 resend_same_bytes). UCS2 text has no codec hypothesis left either: sm_round_trip_ucs2_fallback / _fallback_payload (default alphabet GSM, '
+              'automatic encoding, any text of Unicode scalar values outside the alphabet: written as UTF-16-BE with data_coding 8, read back as the '
+              'text with encoding ucs2) and sm_round_trip_ucs2_default (UCS2 as the configured default, data_coding 0); the UTF-16-BE round trip on '
+              'scalar values, astral characters as surrogate pairs, is a lemma (Lemmas/Split.lean). NOT theorems: a UDH inside the text, the ascii / '
+              'latin_1 / packed codecs (explicit codec facts as hypotheses); '
               'these are decided by the octet-for-octet correspondence of the model encoder and decoder with the code plus the round-trip '
               'predicate on generated messages (all alphabets, boundary lengths 0/254/255, TLVs of every value type, both time forms, payload, '
               'second serialisation of the same object, automatic encoding must fall back to UCS2).'),
